@@ -127,3 +127,39 @@ func TestDebugRepeat(t *testing.T) {
 		x ^= prop.Run(t, q, false).LogHash
 	}
 }
+
+func TestDebugMySQL(t *testing.T) {
+	if os.Getenv("VERIF_DEBUG_MYSQL") == "" {
+		t.Skip()
+	}
+	w := kernel.NewWorld(&kernel.Plan{Seed: 7}, true)
+	Bubble(t, 7, func() {
+		rng := kernel.NewRNG(7, 1)
+		cols := []colKind{{Name: "c1", Envelope: "acrablock"}}
+		pw, err := NewPgWorld(w, rng, PgWorldConfig{SchemaYAML: schemaYAML(cols), Clients: []string{owner, stranger}, MySQL: true})
+		if err != nil {
+			t.Fatal(err)
+		}
+		pw.DB.AddTable("t1", Col{"id", TInt4}, Col{"plain", TText}, Col{"c1", TBytea})
+		script := []Stmt{
+			{SQL: "INSERT INTO t1 (id, plain, c1) VALUES (1, 'p', 'MARKERMARKERMARKER')"},
+			{SQL: "SELECT id, plain, c1 FROM t1 WHERE id = 1"},
+			{SQL: "INSERT INTO t1 (id, plain, c1) VALUES (?, ?, ?)", Extended: true, Args: []interface{}{int64(2), "pp", []byte("MARK2MARK2MARK2")}},
+			{SQL: "SELECT id, plain, c1 FROM t1 WHERE id = ?", Extended: true, Args: []interface{}{int64(2)}},
+			{SQL: "SELECT id FROM nosuch"},
+			{SQL: "SELECT id, plain, c1 FROM t1"},
+		}
+		run := pw.RunSession(owner, script)
+		fmt.Printf("steps=%d stuck=%v clientErr=%q proxyErrs=%v panics=%v\n", run.Steps, run.Stuck, run.ClientErr, run.ProxyErrs, pw.Panics)
+		for _, st := range pw.Stacks {
+			fmt.Println(st)
+		}
+		fmt.Printf("db statements: %q\n db errors: %q\n", pw.DB.Statements, pw.DB.Errors)
+		for i, r := range run.Results {
+			fmt.Printf("res %d: err=%q ready=%v rows=%q types=%v\n", i, r.Err, r.Ready, r.Rows, r.MyTypes)
+		}
+		for _, row := range pw.DB.Tables["t1"].Rows {
+			fmt.Printf("stored: %.60q\n", row)
+		}
+	})
+}
